@@ -13,11 +13,24 @@ EXPR_ENUM = "oq3_syntax::ast::generated::nodes::Expr"
 _cache = {}
 
 
+def small_pure_helper(prog, c):
+    """A module-private function of the analyser that only computes a value from its arguments (no Context / symbol
+    table parameter, no loop, a handful of blocks): looked into, so that an expression extracted into such a helper
+    (`num_params_in(&params)`) is seen as the expression itself."""
+    b = prog.body(c)
+    if b is None or not c.startswith("oq3_semantics::syntax_to_semantics::") or "{closure" in c or not str(b.vis).startswith("in "):
+        return False
+    if len(b.blocks) > 14 or any(len(comp) > 1 for comp in b.sccs()):
+        return False
+    tys = " ".join(str(b.local_ty(i)) for i in range(1, b.nargs + 1))
+    return "Context" not in tys and "SymbolTable" not in tys and "SyntaxNode" not in tys and "synast::" not in tys and "oq3_syntax::" not in tys
+
+
 def paths(prog, fn, max_paths=30000):
     k = (prog.dir, fn)
     if k not in _cache:
         b = prog.body(fn)
-        se = SymExec(prog, b, max_paths=max_paths)
+        se = SymExec(prog, b, max_paths=max_paths, inline=lambda c: small_pure_helper(prog, c))
         ps = se.paths()
         _cache[k] = (ps, se.truncated)
     return _cache[k]
